@@ -745,6 +745,10 @@ def setbool_cases():
     for v in ('x61', 'x6c6f6e676572', 'x6c6f6e676572207468616e20746865206f6c642076616c7565', 'x'):
         res.append(Case('hist DX 0 sref:x6c6f6e676572;sets:0:%s;gets:0;del:0' % v, {'tags': ['directed', 'setvaluestring-on-reference']}))
         res.append(Case('hist DX 0 str:x6c6f6e676572;arr;addref:1:0;get:1:0;sets:2:%s;gets:0;gets:2;del:1;gets:0;del:0' % v, {'tags': ['directed', 'setvaluestring-on-reference']}))
+    # bulk string-array constructor with a NULL entry at every position: the documented NULL result, and every element built before it released
+    for l in ('-', 'x61,-', '-,x61', 'x61,x6262,-', 'x61,-,x6262', 'x61,x6262,x63,x64,-'):
+        n = len(l.split(','))
+        res.append(Case('hist DX 0 strs:%d:%s;size:0;arr;strs:%d:%s;del:1' % (n, l, n, l), {'tags': ['directed', 'string-array-null-entry']}))
     return res
 
 def directed_key_cases():
